@@ -80,7 +80,7 @@ theorem C06_mismatch_int_left (fuel : Nat) (l r : Option Expr) (s s1 s2 : ES) (i
     (hnil : rv.isNil = false) (hint : ∀ j, rv ≠ .int j) :
     evalInfix (fuel + 1) [60] l r s = (.err { kind := "unable-to-operate" }, s2) := by
   simp only [evalInfix, bind, attempt, hl, hr, pure]
-  cases rv <;> simp_all [Val.isNil, fail, throwErr, tolerantOps]
+  cases rv <;> simp_all [applyInfix, Val.isNil, fail, throwErr, tolerantOps]
 
 /-- `&&` and `||` short-circuit: a falsy (truthy) left operand decides the result and the right operand
     is not evaluated — it does not occur on the right-hand side and the state is the one after the left -/
